@@ -1,12 +1,15 @@
 //! C05 / C06 / C07: the production FramedReader (ReadBuffer + MbapParser / RtuParser + next_frame)
 //! over the scripted in-memory transport.
 //!
-//! input line:  <tcp|rtureq|rtursp> <stop|resume> <eof|pending|err> <chunk hex | -> ...
+//! input line:  <tcp|rtureq|rtursp> <stop|resume|cancel> <eof|pending|err> <chunk hex | -> ...
 //!   one scripted chunk per read call (truncated to the space the reader offers, the rest stays
 //!   at the head); `-` is an empty chunk (a 0-byte read); after the last chunk the source
 //!   reports EOF / stays pending forever / fails with ConnectionReset.
 //!   stop   = stop calling next_frame at the first error (server session, client connection)
 //!   resume = keep calling next_frame after a BadFrame / Internal error (RTU server across a port reopen)
+//!   cancel = as stop, but the bytes arrive chunk by chunk and every next_frame call that has to wait is
+//!            ABANDONED (its future is dropped, as when another tokio::select! branch fires in
+//!            SessionTask::run_one / ClientLoop::poll) and a fresh call is made once the next chunk is there
 //! output line: F(<tx|->,<dest>,<bcast 0/1>,<payload hex>) ... then the terminal error class,
 //!   exactly as Base/Frame.v `show_run` prints the model's result; PANIC if the reader panicked.
 //! optional arguments: --decode min|max; --stats appends `;reads=..;compactions=..;resets=..`
@@ -49,20 +52,30 @@ pub fn framing_of(s: &str) -> Framing {
 fn run_case(line: &str, decode: DecodeLevel, stats: bool) -> String {
     let parts: Vec<&str> = line.split_whitespace().collect();
     let framing = framing_of(parts[0]);
-    let resume = match parts[1] {
-        "stop" => false,
-        "resume" => true,
+    let (resume, cancel) = match parts[1] {
+        "stop" => (false, false),
+        "resume" => (true, false),
+        "cancel" => (false, true),
         m => panic!("bad mode {m:?}"),
     };
     let wire = Wire::new();
-    for c in &parts[3..] {
-        wire.push(&unhex(c));
-    }
-    match parts[2] {
+    let chunks: Vec<Vec<u8>> = parts[3..].iter().map(|c| unhex(c)).collect();
+    let set_fin = |wire: &Wire| match parts[2] {
         "eof" => wire.set_eof(),
         "err" => wire.set_read_error(std::io::ErrorKind::ConnectionReset),
         "pending" => {}
         f => panic!("bad ending {f:?}"),
+    };
+    // cancel mode: nothing is there yet; chunks are handed over one by one, each time a call had to be abandoned
+    let mut next_chunk = 0;
+    let mut fin_set = false;
+    if !cancel {
+        for c in &chunks {
+            wire.push(c);
+        }
+        next_chunk = chunks.len();
+        set_fin(&wire);
+        fin_set = true;
     }
     let mut reader = Reader::new(framing, Box::new(wire.clone()));
     let mut out: Vec<String> = Vec::new();
@@ -84,6 +97,19 @@ fn run_case(line: &str, decode: DecodeLevel, stats: bool) -> String {
         }
         match res {
             Poll::Pending => {
+                // the future of this call is gone (dropped at the end of the block above)
+                if next_chunk < chunks.len() {
+                    wire.push(&chunks[next_chunk]);
+                    next_chunk += 1;
+                    continue;
+                }
+                if !fin_set {
+                    set_fin(&wire);
+                    fin_set = true;
+                    if parts[2] != "pending" {
+                        continue;
+                    }
+                }
                 out.push("Pending".to_string());
                 break;
             }
